@@ -211,8 +211,10 @@ static void do_dh(char **a, int n)
     s->peerSigAlg = 0xffff; s->hashSigAlg = 0xffff; s->ecInfo.ecFlags = 0xffffff; s->rec.majVer = 3;
     uint32_t su[64]; int ns = csv_u32(a[5], su, 64, 16); unsigned char lst[128];
     printf(" gcs=");
+    sslKeys_t *kk = s->keys; s->keys = NULL;          /* sslGetCipherSpec without the key-material filter (as in `gcs`) */
     for (int i = 0; i < ns; i++) { lst[2*i] = (unsigned char) (su[i] >> 8); lst[2*i+1] = (unsigned char) su[i];
                                    printf("%s%d", i ? "," : "", sslGetCipherSpec(s, (uint16_t) su[i]) ? 1 : 0); }
+    s->keys = kk;
     s->cipher = NULL;
     int32 rc = chooseCipherSuite(s, lst, 2 * ns);
     printf(" ccs=%d:%04x", rc < 0 ? -1 : 0, (rc < 0 || !s->cipher) ? 0 : s->cipher->ident);
@@ -441,6 +443,7 @@ int main(void)
     if (matrixSslOpen() < 0) { printf("INITFAIL\n"); return 2; }
     while (next_case()) {
         int i = 0;
+        reset_global();
         while (i < g_ntok) {
             int j = i; while (j < g_ntok && strcmp(g_tok[j], ";") != 0) j++;
             run_cmd(g_tok + i, j - i);
